@@ -39,10 +39,12 @@ type Step struct {
 // ------------------------------------------------------------------ rejecting TransactionStore around the real mem store
 
 type rejectStore struct {
-	inner  keyvalue.TransactionStore
-	calls  int
-	failAt int
-	fired  string
+	inner      keyvalue.TransactionStore
+	calls      int
+	failAt     int
+	failN      int // length of the outage in calls (0/1 = one call)
+	fired      string
+	failedSets int
 }
 
 func (r *rejectStore) Get(ctx context.Context, p string) (keyvalue.FileRecord, error) {
@@ -73,8 +75,13 @@ func (r *rejectStore) Transaction(o keyvalue.TransactionOptions) (keyvalue.Trans
 
 func (t *rejectTxn) tick(what string) bool {
 	t.st.calls++
-	if t.st.failAt > 0 && t.st.calls == t.st.failAt {
-		t.st.fired = what
+	if n := t.st.failN; t.st.failAt > 0 && (t.st.calls == t.st.failAt || (n > 1 && t.st.calls > t.st.failAt && t.st.calls < t.st.failAt+n)) {
+		if t.st.fired == "" {
+			t.st.fired = what
+		}
+		if strings.HasPrefix(what, "set ") {
+			t.st.failedSets++
+		}
 		return true
 	}
 	return false
@@ -217,6 +224,13 @@ func (e *env) disarm() {
 	} else {
 		e.reject.failAt = 0
 	}
+}
+
+func (e *env) failedSets() int {
+	if e.plain != nil {
+		return e.plain.FailedSets
+	}
+	return e.reject.failedSets
 }
 
 func (e *env) calls() int {
@@ -390,6 +404,8 @@ func (e *env) consistent() string {
 type Case struct {
 	Kind  string `json:"kind"`
 	Steps []Step `json:"steps"`
+	// Outage: the store fails this many consecutive calls from each fault index on (0/1 = a single call)
+	Outage int `json:"outage,omitempty"`
 }
 
 type outcome struct {
@@ -454,12 +470,21 @@ func check(c Case) (string, string, outcome) {
 		if err != nil {
 			return base + " setup", err.Error(), out
 		}
+		if e.plain != nil {
+			e.plain.FailLen = c.Outage
+		} else {
+			e.reject.failN = c.Outage
+		}
 		out.faultRuns++
 		firedAt := -1
 		allSame := true
 		for i, s := range c.Steps {
+			setsBefore := e.failedSets()
 			res := e.apply(s)
-			if !sameRes(res, dryRes[i]) || (firedAt < 0 && e.fired() != "" && !res.OK()) {
+			if res.OK() && e.failedSets() > setsBefore && !strings.HasPrefix(s.K, "hclose") {
+				return base + " swallowed:set:" + s.K, fmt.Sprintf("store call %d failing (outage %d): the store rejected a Set during step %d %v, but the operation reported success", fault, c.Outage, i, s), out
+			}
+			if !sameRes(res, dryRes[i]) || (firedAt < 0 && e.fired() != "" && !res.OK()) || errors.Is(res.Err, kvstore.ErrInjected) {
 				// a different result, or the operation hit by the fault failed (its effects may then legitimately be missing)
 				allSame = false
 			}
@@ -564,6 +589,10 @@ func genSteps(t *rapid.T) []Step {
 func run(t *testing.T, kind string) {
 	vf.Check(t, kind, func(rt *rapid.T, rec *vf.Rec) {
 		c := Case{Kind: kind, Steps: genSteps(rt)}
+		if rapid.IntRange(0, 2).Draw(rt, "outage") == 0 {
+			c.Outage = rapid.IntRange(2, 6).Draw(rt, "outagelen")
+			rec.Class("outage")
+		}
 		if k := knownSig(c); k != "" {
 			rec.Excluded(k)
 			rt.Skip("known finding")
